@@ -45,7 +45,7 @@ T = "github.com/Flowpack/prunner/taskctl"
 
 L2_ASSUME = [
     "L2: the real taskctl.Scheduler (Schedule/Cancel/isDone/checkStatus/runStage) and the real upstream ExecutionGraph/Stage run multi-threaded under the engine's scheduler; a context switch is possible before every atomic operation, go statement, channel operation and harness yield (mutex/WaitGroup operations switch only when they block), bounded by the preemption bound",
-    "the task runner is the most general stub satisfying the runner contract G1 (begins, takes time, ends ok / failed / canceled once the cancel was delivered; refuses to run after the cancel)",
+    "the task runner is the most general stub satisfying the runner contract G1 (begins, takes time, ends ok / failed; once the cancel was delivered a running task ends canceled - with reactions=1 also with a failure of its own or regularly; refuses to run after the cancel)",
     "time.Sleep in the poll loop: the sleeper continues once anything changed since it last woke (idle-iteration elision); a sleeper that can never be woken is reported as livelock",
     "a third L2 configuration makes the stage-change callback a switch point instead of the atomic operations (3 stages, preemption bound 1): the callback takes time in prunner (it takes the runner-wide mutex), which is the window in which a stage is visible as 'error' before it becomes 'done'",
     "graphs: up to `stages` stages, every dependency shape, every allow_failure vector, every outcome vector; modes: undisturbed, external Cancel at any switch point, fail-fast Cancel",
@@ -57,7 +57,7 @@ def l2(quick, thorough, qflags, tflags, reach=()):
 
 L2CB = l2({"stages": 3, "callbackyield": 1, "noatomicpreempt": 1}, {"stages": 3, "callbackyield": 1, "noatomicpreempt": 1}, {"preempt": 1}, {"preempt": 1}, reach=["schedule.nil", "dependent-skipped", "run.after-allowed-failure", "end"])
 L2RUN3 = l2({"stages": 3}, {"stages": 3}, {"preempt": 0}, {"preempt": 0}, reach=["schedule.nil", "schedule.canceled", "dependent-skipped", "end"])
-L2RUN = l2({"stages": 2}, {"stages": 3}, {"preempt": 2}, {"preempt": 1}, reach=["schedule.nil", "schedule.canceled", "run.canceled-in-flight", "run.refused-after-cancel", "run.after-allowed-failure", "dependent-skipped", "end"])
+L2RUN = l2({"stages": 2, "reactions": 1}, {"stages": 3}, {"preempt": 2}, {"preempt": 1}, reach=["schedule.nil", "schedule.canceled", "run.canceled-in-flight", "run.refused-after-cancel", "run.after-allowed-failure", "dependent-skipped", "end"])
 
 SELFTEST = {"pkg": P, "harness": ["harness/prunner"], "entry": "VerifSelfTest", "quick": {}, "thorough": {}, "reach": ["selftest-done"], "selftest": True, "flags": {"workers": 2}}
 
@@ -150,17 +150,24 @@ CHECKS = {
                 "after a symbolic prefix of L3 events the pending activities become threads (scheduler goroutines that end on their own when scheduled or with context.Canceled once the stop was delivered; stop-delivery goroutines; in thorough a racing ScheduleAsync client); Shutdown runs on the harness thread; the forced variant cancels ctx from another thread at an arbitrary switch point",
                 "time.After(poll interval) fires once something changed since it was armed (idle-iteration elision); the persist loop and pending start timers are not threads in VerifC11Shutdown",
                 "VerifC11Persist: concrete configuration (concurrency 1, one running and one waiting job), the REAL persist loop goroutine of NewPipelineRunner runs as a thread, the store's write is a switch point (a slow disk), graceful Shutdown on the harness thread; after Shutdown returned and every activity ended the last write to the store must hold the final state",
-                "the store is a recording stub; 'store equals final state' compares flags and start/end presence per job"],
+                "the store is a recording stub; 'store equals final state' compares flags and start/end presence per job",
+                "VerifC11Race: one ScheduleAsync request races a graceful Shutdown of an idle runner (pipeline with or without start delay), all atomic operations / blocking locks / channel operations are switch points: the request is refused with ErrShuttingDown and leaves nothing, or its job is terminal and in the store's final snapshot",
+                "persist discipline (L3 BMC): before every event the pending persist request is taken away; if the event changes what SaveToStore would write (job set, flags, presence of instants and errors, task statuses) a persist request must be pending afterwards; together with the persist loop's interval (<= 3 s, VerifC11Persist) this is 'every acknowledged change reaches the store within the persist interval'; real time is not measured"],
             "runs": [step("VerifC11Shutdown", {"K": 2, "N": 2, "racer": 0}, {"K": 2, "N": 2, "racer": 0}, reach=["shutdown.graceful", "shutdown.forced", "shutdown.with-running-job", "shutdown.with-waiting-job", "end"],
                           flags={"preempt": 0}),
                      step("VerifC11Shutdown", {}, {"K": 0, "N": 1, "racer": 1, "idlepipeline": 0}, reach=["shutdown.graceful", "shutdown.forced", "racer.accepted", "end"],
                           flags={"preempt": 0}, thorough_only=True),
-                     step("VerifC11Persist", {}, {}, reach=["periodic-and-final-save", "persist-interval-seen", "end"], quick_flags={"preempt": 1}, thorough_flags={"preempt": 2})]},
+                     step("VerifC11Persist", {}, {}, reach=["periodic-and-final-save", "persist-interval-seen", "end"], quick_flags={"preempt": 1}, thorough_flags={"preempt": 2}),
+                     step("VerifC11Race", {}, {}, reach=["racer.accepted", "racer.rejected", "end"], quick_flags={"preempt": 2}, thorough_flags={"preempt": 5}),
+                     # persist discipline: every event that changes what a save would write asks for a save
+                     bmc({"K": 3, "N": 3}, {"K": 4, "N": 4}, reach=["persist.state-changed", "end"])]},
     "C18": {"prefixes": ["C18."],
             "assumptions": ["contract-level: checked up to the exec boundary - the list handed to expand.ListEnviron (later entries override earlier ones: mvdan/sh contract), the variables handed to the template renderer, the command text; the shell interpreter, text/template and exec are not executed",
                             "stubs: os.Environ (symbolic process environment), os.Getwd, interp.New/Run, expand.ListEnviron, syntax.Parser.Parse, utils.RenderString (identity on strings without template actions), reflect.ValueOf(x).Kind()",
+                            "VerifC18Stage: the real Scheduler.runStage hands a stage to a capturing runner; the stage carries the job's variables (one symbolic name + the job id), the task's environment may define the same name and / or the reserved job id name (symbolic values): the task is run with the job's values",
                             "one symbolic variable name (no '=' in it, not TASK_NAME) that may be defined at each of the three levels, symbolic values, symbolic task name and job variable value; two commands per task"],
             "runs": [{"pkg": T, "harness": ["harness/taskctl"], "entry": "VerifC18Env", "quick": {}, "thorough": {}, "reach": ["defined-somewhere", "all-three-levels"]},
+                     {"pkg": T, "harness": ["harness/taskctl"], "entry": "VerifC18Stage", "quick": {}, "thorough": {}, "reach": ["name-collision", "job-id-collision", "end"]},
                      step("VerifC18Reserved", reach=["reserved", "ordinary"], replay="harness"),
                      bmc({"K": 3, "N": 3}, {"K": 4, "N": 4}, reach=["end"])]},
     "C19": {"prefixes": ["C19."],
